@@ -253,7 +253,7 @@ type gen struct {
 }
 
 func genC10(o *vcoq.Out, r *vcoq.Rand, tier string) error {
-	o.Header = "From SC Require Import Base.Prelude Bus.Bus Bus.Pipe Bus.PipeJudge Bus.C10Judge."
+	o.Header = "From SC Require Import Base.Prelude Bus.Bus Bus.Pipe Bus.PipeJudge Bus.Res Bus.ResJudge Bus.C10Judge."
 	o.CaseType = "c10case"
 	o.Judge = "judge"
 	o.Shard = 130
@@ -275,6 +275,15 @@ func genC10(o *vcoq.Out, r *vcoq.Rand, tier string) error {
 	for i := 0; i < nPipe && g.hard < 2*maxHard; i++ {
 		if err := g.pipeScript(i); err != nil {
 			return fmt.Errorf("pipe script %d: %w", i, err)
+		}
+	}
+	nRes := 450
+	if tier == "thorough" {
+		nRes = 9000
+	}
+	for i := 0; i < nRes && g.hard < 2*maxHard; i++ {
+		if err := g.resScript(i); err != nil {
+			return fmt.Errorf("res script %d: %w", i, err)
 		}
 	}
 	nRace := 250
